@@ -36,23 +36,25 @@ class CPool:
     log = []
     ncalls = 0
 
-    def __init__(self, *a, **k):
-        pass
+    def __init__(self, processes=None, *a, **k):
+        self._processes = processes or os.cpu_count() or 1       # what multiprocessing.Pool records
+        self._pending = []
 
     def __enter__(self):
         return self
 
     def __exit__(self, *a):
+        self._flush()
         return False
 
     def close(self):
-        pass
+        self._flush()
 
     def join(self):
-        pass
+        self._flush()
 
     def terminate(self):
-        pass
+        self._flush()
 
     def clear(self):
         pass
@@ -87,6 +89,8 @@ class CPool:
         return idx
 
     def _run(self, f, tasks, kind):
+        if kind != 'apply_async':
+            self._flush()
         tasks = list(tasks)
         order = self._order(len(tasks))
         res = [None] * len(tasks)
@@ -135,8 +139,66 @@ class CPool:
     def starmap(self, f, it, chunksize=None):
         return self.map(lambda a: f(*a), it)
 
-    def apply_async(self, *a, **k):
-        raise NotImplementedError("CPool.apply_async")
+    # ---- asynchronous submissions: queued, and run (in the policy's order) at the next synchronisation point -
+    # a result being waited for or fetched, another pool call, close / join / terminate / leaving a with block
+    class _Async:
+        def __init__(self, pool):
+            self._pool, self._r = pool, None
+
+        def _done(self):
+            if self._r is None:
+                self._pool._flush()
+
+        def get(self, timeout=None):
+            self._done()
+            return CPool._unwrap(self._r)
+
+        def wait(self, timeout=None):
+            self._done()
+
+        def ready(self):
+            self._done()
+            return True
+
+        def successful(self):
+            self._done()
+            return self._r[0] == 'ok'
+
+    def _flush(self):
+        pend = getattr(self, '_pending', [])
+        self._pending = []
+        if not pend:
+            return
+        order, res = self._run(lambda t: t[0](*t[1], **t[2]), [(f, a, k) for (f, a, k, _, _, _) in pend], 'apply_async')
+        for i in order:
+            _, _, _, cb, ecb, ar = pend[i]
+            ar._r = res[i]
+            if res[i][0] == 'ok' and cb:
+                cb(res[i][1])
+            if res[i][0] == 'exc' and ecb:
+                ecb(res[i][1])
+
+    def apply_async(self, func, args=(), kwds=None, callback=None, error_callback=None):
+        ar = CPool._Async(self)
+        if not hasattr(self, '_pending'):
+            self._pending = []
+        self._pending.append((func, tuple(args), dict(kwds or {}), callback, error_callback, ar))
+        return ar
+
+    def apply(self, func, args=(), kwds=None):
+        return self.apply_async(func, args, kwds).get()
+
+    def map_async(self, f, it, chunksize=None, callback=None, error_callback=None):
+        ar = CPool._Async(self)
+        try:
+            ar._r = ('ok', self.map(f, it))
+            if callback:
+                callback(ar._r[1])
+        except Exception as e:
+            ar._r = ('exc', e)
+            if error_callback:
+                error_callback(e)
+        return ar
 
 
 _REAL = {}
